@@ -6,6 +6,7 @@ import EvyV.Driver.BcDrv
 import EvyV.Driver.ExprDrv
 import EvyV.Driver.EvalDrv
 import EvyV.Driver.EnvDrv
+import EvyV.Driver.SvgDrv
 import EvyV.Gen.Shapes
 /-
 Line protocol driver (core-only, compiled as `lean_exe evyv`).
@@ -57,6 +58,7 @@ def handle (line : String) : String :=
   | ["shape", "writeAtomically"] => " ".intercalate (Gen.writeAtomically.map (·.1))
   | "envsplit" :: rest => EnvDrv.handleSplit rest
   | "verifychoice" :: rest => EnvDrv.handleVerify rest
+  | "svg" :: rest => SvgDrv.handle rest
   | _ => "ERR unknown request"
 
 partial def loop (hin hout : IO.FS.Stream) : IO Unit := do
